@@ -1066,6 +1066,7 @@ static PyObject* gbmv(PyObject *self, PyObject *args, PyObject *kwrds)
     if ((!m && trans == 'N') || (!n && (trans == 'T' || trans == 'C')))
        return Py_BuildValue("");
 
+    if (m < 0) err_nn_int("m");
     if (kl < 0) err_nn_int("kl");
     if (ku < 0) ku = A->nrows - 1 - kl;
     if (ku < 0) err_nn_int("ku");
